@@ -219,8 +219,7 @@ def _call_iso_finder(inp):
 
 
 @S.item("iso_finder.isomorphs", site=f"{_RM}:iso_finder",
-        bound="seeded selection (graphs on >= 2 vertices: cannot meet KF-C16-1; input-first is not judged here: cannot meet KF-C16-2); "
-              "graphs: ALL n<=4 + (quick 60 seeded / thorough ALL 1024) n=5 + 12 graphs on 8 vertices (K8, empty, star, path, cycle, 7 seeded); "
+        bound="seeded selection; graphs: ALL n<=4 + (quick 60 seeded / thorough ALL 1024) n=5 + 12 graphs on 8 vertices (K8, empty, star, path, cycle, 7 seeded); "
               "n_iso in {1,2,5,24,200} ({1,3,10,40} on 8 vertices); rel_inc_thresh {0.2,0,1}; allow_exhaustive; sort_emit; label_map; thresh {None,1,50}; seeds {0,1,2,None}: "
               "full product (thorough; on 5 vertices only rel_inc_thresh {0.2,0}, thresh None, seed 0) / 5700 seeded combinations (quick)",
         clause=CL_ISO + "; " + CL_MAP + " (label_map=True)")
@@ -256,13 +255,13 @@ def c_iso_finder(inp):
 
 
 @S.item("iso_finder.smallest_graphs", site=f"{_RM}:iso_finder",
-        bound="fixed list, seed-independent (touches known finding KF-C16-1): the graphs on 1 and 2 vertices x n_iso in {1,2} x seed in {0,1}, other options default",
+        bound="fixed list: the graphs on 1 and 2 vertices x n_iso in {1,2} x seed in {0,1}, other options default",
         exhaustive=True, clause=CL_ISO + "; " + CL_FIRST)
 def c_iso_smallest(inp):
     return c_iso_finder(inp) or c_iso_first(inp)
 
 
-@S.item("iso_finder.input_first", site=f"{_RM}:iso_finder", bound="the sort_emit=False half of the domain of iso_finder.isomorphs (seeded; cannot meet KF-C16-2, which needs sort_emit=True)", clause=CL_FIRST)
+@S.item("iso_finder.input_first", site=f"{_RM}:iso_finder", bound="same domain as iso_finder.isomorphs (both values of sort_emit)", clause=CL_FIRST)
 def c_iso_first(inp):
     A, arr, maps, refused = _call_iso_finder(inp)
     if refused:
@@ -273,7 +272,7 @@ def c_iso_first(inp):
 
 
 @S.item("iso_finder.input_first_sort_emit", site=f"{_RM}:iso_finder",
-        bound="fixed list, seed-independent (touches known finding KF-C16-2): sort_emit=True: ALL 64 labelled graphs on 4 vertices x n_iso in {5,24} x label_map x seed in {0,1}; other options default "
+        bound="fixed list: sort_emit=True: ALL 64 labelled graphs on 4 vertices x n_iso in {5,24} x label_map x seed in {0,1}; other options default "
               "(fixed list, independent of tier and run seed)", exhaustive=True, clause=CL_FIRST + " (also when the result is sorted by emitter count)")
 def c_iso_first_sorted(inp):
     return c_iso_first(inp)
@@ -476,7 +475,7 @@ def run(tier, seed):
                                     for sd in seeds:
                                         yield [a, n_iso, rel, exh, se, lm, th, sd]
 
-    g4x = [a for a in g4 if len(a) > 1]  # graphs on 1 and 2 vertices: see the fixed item iso_finder.smallest_graphs
+    g4x = g4  # (the graphs on 1 and 2 vertices are also listed exhaustively in iso_finder.smallest_graphs)
 
     def stride(full, count, offset):
         step = max(1, len(full) // count)
@@ -492,7 +491,7 @@ def run(tier, seed):
         iso_in += stride(list(combos(g8, (1, 3, 10, 40), (0, 1))), 300, int(rng.integers(10**6)))
     nt_iso = lambda i: i[1] > 1 and i[1] <= math.factorial(len(i[0]))  # noqa: E731
     S.map("iso_finder.isomorphs", iso_in, nontrivial=nt_iso)
-    S.map("iso_finder.input_first", [i for i in iso_in if not i[4]], nontrivial=nt_iso)
+    S.map("iso_finder.input_first", iso_in, nontrivial=nt_iso)
     S.map("iso_finder.smallest_graphs", [[a, n_iso, 0.2, True, False, False, None, sd] for a in ([[0]], [[0, 0], [0, 0]], [[0, 1], [1, 0]])
                                          for n_iso in (1, 2) for sd in (0, 1)])
     S.map("iso_finder.input_first_sort_emit",
